@@ -32,7 +32,8 @@ pub(crate) fn as_f64(value: &Value, lossy: bool) -> Option<f64> {
     macro_rules! checked {
         ($expr:expr, $ty:ty) => {{
             let rv = $expr as f64;
-            return if lossy || rv as $ty == $expr {
+            // the cast back saturates, so `MAX` would wrongly round-trip via `MAX as f64`
+            return if lossy || (rv < <$ty>::MAX as f64 && rv as $ty == $expr) {
                 Some(rv)
             } else {
                 None
@@ -55,9 +56,10 @@ pub fn coerce<'x>(a: &'x Value, b: &'x Value, lossy: bool) -> Option<CoerceResul
     match (&a.0, &b.0) {
         // equal mappings are trivial
         (ValueRepr::U64(a), ValueRepr::U64(b)) => Some(CoerceResult::I128(*a as i128, *b as i128)),
-        (ValueRepr::U128(a), ValueRepr::U128(b)) => {
-            Some(CoerceResult::I128(a.0 as i128, b.0 as i128))
-        }
+        (ValueRepr::U128(a), ValueRepr::U128(b)) => Some(CoerceResult::I128(
+            some!(i128::try_from(a.0).ok()),
+            some!(i128::try_from(b.0).ok()),
+        )),
         (ValueRepr::String(a, _), ValueRepr::String(b, _)) => Some(CoerceResult::Str(a, b)),
         (ValueRepr::SmallStr(a), ValueRepr::SmallStr(b)) => {
             Some(CoerceResult::Str(a.as_str(), b.as_str()))
@@ -363,7 +365,40 @@ pub fn add(lhs: &Value, rhs: &Value) -> Result<Value, Error> {
 }
 
 math_binop!(sub, checked_sub, -);
-math_binop!(rem, checked_rem_euclid, %);
+
+pub fn rem(lhs: &Value, rhs: &Value) -> Result<Value, Error> {
+    match coerce(lhs, rhs, true) {
+        Some(CoerceResult::I128(a, b)) => {
+            // `checked_rem_euclid` rejects `i128::MIN % -1` because the matching
+            // division overflows, the remainder however is just 0.
+            let rv = if b == -1 {
+                Some(0)
+            } else {
+                a.checked_rem_euclid(b)
+            };
+            match rv {
+                Some(val) => Ok(int_as_value(val)),
+                None => Err(failed_op("%", lhs, rhs)),
+            }
+        }
+        Some(CoerceResult::F64(a, b)) => Ok(a.rem_euclid(b).into()),
+        _ => Err(impossible_op("%", lhs, rhs)),
+    }
+}
+
+/// Euclidean division of floats that agrees with `f64::rem_euclid`.
+///
+/// `f64::div_euclid` truncates the rounded quotient which can be off by one
+/// when `a` is close to a multiple of `b` (`1.0 // 0.1`).  The remainder is
+/// exact, so derive the quotient from it.
+fn f64_div_euclid(a: f64, b: f64) -> f64 {
+    let q = ((a - a.rem_euclid(b)) / b).round();
+    if q.is_finite() {
+        q
+    } else {
+        a.div_euclid(b)
+    }
+}
 
 pub fn mul(lhs: &Value, rhs: &Value) -> Result<Value, Error> {
     if let Some((s, n)) = lhs
@@ -472,7 +507,7 @@ pub fn int_div(lhs: &Value, rhs: &Value) -> Result<Value, Error> {
                 Err(failed_op("//", lhs, rhs))
             }
         }
-        Some(CoerceResult::F64(a, b)) => Ok(a.div_euclid(b).into()),
+        Some(CoerceResult::F64(a, b)) => Ok(f64_div_euclid(a, b).into()),
         _ => Err(impossible_op("//", lhs, rhs)),
     }
 }
@@ -498,9 +533,7 @@ pub fn neg(val: &Value) -> Result<Value, Error> {
             ValueRepr::F64(x) => Ok((-x).into()),
             // special case for the largest i128 that can still be
             // represented.
-            ValueRepr::U128(x) if x.0 == MIN_I128_AS_POS_U128 => {
-                Ok(Value::from(MIN_I128_AS_POS_U128))
-            }
+            ValueRepr::U128(x) if x.0 == MIN_I128_AS_POS_U128 => Ok(Value::from(i128::MIN)),
             _ => {
                 if let Ok(x) = i128::try_from(val.clone()) {
                     x.checked_mul(-1)
